@@ -104,29 +104,30 @@ type mqCall struct {
 // mq is the component world of C15, C16 and C17: the real message queue,
 // peer manager, allocator and publisher over the simulated network.
 type mq struct {
-	prop       string
-	host       *SimHost
-	net        gsnet.GraphSyncNetwork
-	alloc      *allocator.Allocator
-	ledger     *ledgerAlloc
-	pm         *peermanager.PeerMessageManager
-	peers      []*Scripted
-	subs       map[string]*mqSub // peer/req
-	calls      []*mqCall
-	nBuilt     map[string]int
-	live       map[string]int   // peer -> queues started and not exited
-	active     map[string]int   // peer -> queues started and not yet told to shut down
-	shutAt     map[string][]int // peer -> steps at which a queue of the peer was told to shut down
-	exitAt     map[string][]int // peer -> steps at which a queue of the peer exited
-	maxLive    map[string]int
-	conn       map[string]int // connected notifications outstanding per peer
-	script     []string       // connect/disconnect events: "conn:P", "disc:P"
-	sNext      int
-	scriptAt   []int // step at which each connection event was fired
-	descr      string
-	viol       *Violation
-	unreserved *mqCall // first operation built although its reservation had not been granted
-	ctx        context.Context
+	connReturned, discFired map[string]int // per peer: Connected calls returned, Disconnected notifications issued
+	prop                    string
+	host                    *SimHost
+	net                     gsnet.GraphSyncNetwork
+	alloc                   *allocator.Allocator
+	ledger                  *ledgerAlloc
+	pm                      *peermanager.PeerMessageManager
+	peers                   []*Scripted
+	subs                    map[string]*mqSub // peer/req
+	calls                   []*mqCall
+	nBuilt                  map[string]int
+	live                    map[string]int   // peer -> queues started and not exited
+	active                  map[string]int   // peer -> queues started and not yet told to shut down
+	shutAt                  map[string][]int // peer -> steps at which a queue of the peer was told to shut down
+	exitAt                  map[string][]int // peer -> steps at which a queue of the peer exited
+	maxLive                 map[string]int
+	conn                    map[string]int // connected notifications outstanding per peer
+	script                  []string       // connect/disconnect events: "conn:P", "disc:P"
+	sNext                   int
+	scriptAt                []int // step at which each connection event was fired
+	descr                   string
+	viol                    *Violation
+	unreserved              *mqCall // first operation built although its reservation had not been granted
+	ctx                     context.Context
 }
 
 func newC15() Scenario { return &mq{prop: "C15"} }
@@ -149,6 +150,7 @@ func (s *mq) Build(w *World) {
 	w.MaxIdle = 30 * time.Second
 	s.subs, s.nBuilt, s.live, s.maxLive, s.conn = map[string]*mqSub{}, map[string]int{}, map[string]int{}, map[string]int{}, map[string]int{}
 	s.active, s.shutAt, s.exitAt = map[string]int{}, map[string][]int{}, map[string][]int{}
+	s.connReturned, s.discFired = map[string]int{}, map[string]int{}
 	var cancel context.CancelFunc
 	s.ctx, cancel = context.WithCancel(context.Background())
 	w.cleanup = append(w.cleanup, cancel)
@@ -168,6 +170,17 @@ func (s *mq) Build(w *World) {
 		if t.Chance(350) {
 			w.Yields[site] = true
 		}
+	}
+	// lock-yield build: in a third of the runs a subset of the component's files also yields before every lock
+	// acquisition made with no instrumented lock held (chosen from the tape's digest: no draw)
+	if d := t.Digest(); d%3 == 0 {
+		var on []string
+		for i, f := range mqLockYieldFiles {
+			if (d>>(8+uint(i)))&1 == 1 {
+				on = append(on, f)
+			}
+		}
+		w.EnableLockYields(on...)
 	}
 	unit := uint64(100)
 	perPeer := unit * uint64(2+t.Draw(8))
@@ -330,7 +343,9 @@ func (s *mq) events(w *World) func() []*Event {
 			evs = append(evs, Inject("api", fmt.Sprintf("call|%03d|%s", c.idx, c.peer), func(string) { s.fire(w, c) }))
 			break // calls are issued in order (one caller thread per call, started in order)
 		}
-		if s.sNext < len(s.script) {
+		// (a connection's Disconnected follows its Connected: a disconnect is notified only once a Connected call
+		// that it can belong to has returned - with lock-yield points a call may be held at its very first lock)
+		if s.sNext < len(s.script) && (!strings.HasPrefix(s.script[s.sNext], "disc:") || s.connReturned[s.script[s.sNext][5:]] > s.discFired[s.script[s.sNext][5:]]) {
 			i := s.sNext
 			ev := s.script[i]
 			evs = append(evs, Inject("notify", fmt.Sprintf("conn|%03d|%s", i, ev), func(string) {
@@ -343,9 +358,13 @@ func (s *mq) events(w *World) func() []*Event {
 				p := s.peerID(parts[1])
 				w.Effect("peermanager %s", ev)
 				w.Probe("mq-" + parts[0])
+				if parts[0] == "disc" {
+					s.discFired[parts[1]]++
+				}
 				go func() {
 					if parts[0] == "conn" {
 						s.pm.Connected(p)
+						s.connReturned[parts[1]]++
 					} else {
 						s.pm.Disconnected(p)
 					}
@@ -722,3 +741,6 @@ func (s *mq) inMessage(wm *WireMsg, c *mqCall) bool {
 	}
 	return false
 }
+
+// mqLockYieldFiles: the files of the message-queue component world that the lock-yield build instruments.
+var mqLockYieldFiles = []string{"peermanager/peermanager.go", "messagequeue/messagequeue.go", "allocator/allocator.go", "notifications/publisher.go"}
